@@ -80,6 +80,11 @@ Ops(l) ==
     [] l[1] = "fini" ->
          (IF LD("abort_at_every_site") THEN <<EmitOp("ABORT", "fini")>> ELSE <<>>)
          \o (IF l[2] = "exit" THEN ExitOps ELSE <<>>)
+    [] l[1] = "handlers" /\ l[2] = "log_raise" ->
+         \* stop_logging() raises in the inner finally: its lineage calls are skipped; the outer finally ends the run - by an
+         \* error now (design: ABORT; "log_fail_complete" = the code before its repair: COMPLETE)
+         (IF s.outcome \in {"Exception", "Interrupt"} THEN <<StopHb("exc"), EmitOp("ABORT", "exc")>> ELSE <<>>)
+         \o <<StopHb("fin_outer"), EmitOp(IF LD("log_fail_complete") THEN "COMPLETE" ELSE "ABORT", "fin_outer")>>
     [] l[1] = "handlers" ->
          IF ~s.logOpen THEN <<>>       \* the constructor failed: `filter is None`, the emitter is never touched
          ELSE IF LD("abort_at_every_site")
